@@ -100,6 +100,9 @@ func checkC05(c *Ctx) {
 	checkEmitRules(c, "C05.R2.coverage", ev, serializerRules)
 	checkSerializerPairs(c, ev)
 	checkRangeFilters(c, "C05.R1.range-filters", ev, reviewedRangeFilters, 25)
+	checkSerializerReceivers(c, ev)
+	checkMemberCopies(c, ev)
+	checkRequiredExact(c, gen)
 	checkDecoders(c, ev, gen)
 	checkReceiverAssignmentOrder(c, ev)
 	checkDiscriminatorAgreement(c, "C05.R4.discriminator", gen)
@@ -419,4 +422,99 @@ func checkDecoders(c *Ctx, ev *tmpl.Evaluator, gen *packages.Package) {
 	})
 	c.Check(inOrder && sorted == "", rule, "generator.schemaGenContext.buildItems › tuple members appended in item order, never sorted", c.posOf(gen, fd.Pos()), "append in the range over Items.Schemas",
 		"tuple members are re-ordered ("+sorted+"): the serializer decodes array position i into the i-th member, so members p10, p11 sorted before p2 receive the wrong items")
+}
+
+
+// checkSerializerReceivers: encoding/json does not call a pointer-receiver MarshalJSON on a value
+// that is not addressable (a map element, a value passed by value): every generated MarshalJSON has a
+// value receiver, every UnmarshalJSON a pointer receiver.
+func checkSerializerReceivers(c *Ctx, ev *tmpl.Evaluator) {
+	rule := "C05.R2.receivers"
+	c.Rule(rule, "every generated MarshalJSON has a value receiver and every generated UnmarshalJSON a pointer receiver", 10)
+	rx := regexp.MustCompile(`func \(⟦[^⟧]*⟧ (\*?)(?:\w*⟦[^⟧]*⟧\w*)+\) (MarshalJSON|UnmarshalJSON)\(`)
+	for _, tn := range ev.F.Names() {
+		l := linearOf(c, ev, tn)
+		if l == nil || strings.HasPrefix(l.Tree.Asset, "contrib/") {
+			continue
+		}
+		for k, oc := range l.Find(rx) {
+			ptr := oc.Match[1] == "*"
+			want := oc.Match[2] == "UnmarshalJSON"
+			c.Check(ptr == want, rule, fmt.Sprintf("%s › %s › %s #%d", l.Tree.Asset, tn, oc.Match[2], k+1), l.Tree.PosStr(oc.Pos), map[bool]string{true: "pointer receiver", false: "value receiver"}[want],
+				map[bool]string{true: "UnmarshalJSON with a value receiver decodes into a copy: the decoded value is lost", false: "MarshalJSON with a pointer receiver is not used by encoding/json for values that are not addressable (elements of a map[string]T, values encoded by value): the model is then encoded field by field and its additional properties / custom shape are dropped"}[want])
+		}
+	}
+}
+
+// checkMemberCopies: an UnmarshalJSON that decodes into a shadow struct copies every declared
+// member back into the receiver unconditionally — a copy under a condition on the decoded value
+// (non-zero, non-nil) keeps what an earlier decode left in the target.
+func checkMemberCopies(c *Ctx, ev *tmpl.Evaluator) {
+	rule := "C05.R2.member-copies"
+	c.Rule(rule, "in the serializer templates, the assignment of a decoded member to the receiver's field is not wrapped in a generated `if`", 2)
+	rx := regexp.MustCompile(`(?:⟦[^⟧]*ReceiverName⟧|\b\w+)\.⟦pascalize \.Name⟧ = \w+\.⟦pascalize \.Name⟧`)
+	n := 0
+	for _, tn := range ev.F.Names() {
+		l := linearOf(c, ev, tn)
+		if l == nil || !strings.Contains(l.Tree.Asset, "serializer") {
+			continue
+		}
+		for k, oc := range l.Find(rx) {
+			n++
+			// previous non-blank line of generated text
+			prev := strings.TrimRight(l.Text[:oc.Start], " \t\n")
+			if i := strings.LastIndexByte(prev, '\n'); i >= 0 {
+				prev = prev[i+1:]
+			}
+			prev = strings.TrimSpace(prev)
+			cond := strings.HasPrefix(prev, "if ") && strings.HasSuffix(strings.TrimSpace(strings.SplitN(prev, "//", 2)[0]), "{")
+			c.Check(!cond, rule, fmt.Sprintf("%s › %s › member copy #%d", l.Tree.Asset, tn, k+1), l.Tree.PosStr(oc.Pos), "unconditional",
+				"the decoded member is copied into the receiver only under `"+prev+"`: decoding a document whose member is false/0/\"\" into a target that already holds a value keeps the old value")
+		}
+	}
+	if n == 0 {
+		c.Unk(rule, "serializer templates › member copies", "", "no `<receiver>.<Member> = <decoded>.<Member>` assignment found")
+	}
+}
+
+// checkRequiredExact: property names are case-sensitive; whether a property is required is decided
+// by exact comparison with the schema's `required` list.
+func checkRequiredExact(c *Ctx, gen *packages.Package) {
+	rule := "C05.R1.required-exact"
+	c.Rule(rule, "no case-insensitive matching of a name against a schema's Required list", 1)
+	info := gen.TypesInfo
+	n := 0
+	for _, fd := range load.AllFuncs(gen) {
+		fd := fd
+		ast.Inspect(fd.Body, func(nd ast.Node) bool {
+			// positive instances: ranges over <x>.Required comparing with ==
+			if rs, ok := nd.(*ast.RangeStmt); ok && goan.LastSel(rs.X) == "Required" {
+				n++
+				c.Ok(rule, fmt.Sprintf("generator.%s › range over %s", load.FuncName(fd), goan.ExprString(rs.X)), c.posOf(gen, rs.Pos()), "element-wise comparison")
+			}
+			call, ok := nd.(*ast.CallExpr)
+			if !ok {
+				return true
+			}
+			fn := goan.Callee(info, call)
+			if fn == nil {
+				return true
+			}
+			name := goan.CalleeName(fn)
+			if !(strings.HasSuffix(name, "ContainsStringsCI") || name == "strings.EqualFold") {
+				return true
+			}
+			for _, a := range call.Args {
+				if goan.LastSel(a) == "Required" {
+					n++
+					c.Bad(rule, fmt.Sprintf("generator.%s › %s(%s, …)", load.FuncName(fd), name, goan.ExprString(a)), c.posOf(gen, call.Pos()),
+						"the required list is searched without regard to case: a property whose name differs only by case from a required one (ID / id) is treated as required — pointer without omitempty, `null` added on re-encoding")
+				}
+			}
+			return true
+		})
+	}
+	if n == 0 {
+		c.Unk(rule, "generator › uses of Schema.Required", "", "no range over a Required list found")
+	}
 }
